@@ -15,3 +15,16 @@ mod utils;
 /// The Rust toolchain used by `pavexc` to generate JSON docs, unless
 /// overridden by the user.
 pub static DEFAULT_DOCS_TOOLCHAIN: &str = "nightly-2025-12-15";
+
+#[cfg(feature = "verif_hooks")]
+#[doc(hidden)]
+/// Verification hooks: thin re-exports of crate-private functionality for out-of-tree property checks.
+pub mod verif_hooks {
+    /// Run the (crate-private) domain guard validator on `domain`.
+    ///
+    /// On success it returns the normalised guard and the `matchit` pattern that the
+    /// compiler registers for it. On failure it returns the `Debug` rendering of the error.
+    pub fn domain_guard_new(domain: &str) -> Result<(String, String), String> {
+        crate::compiler::verif_domain_guard_new(domain)
+    }
+}
